@@ -121,7 +121,29 @@ def run(tier="quick", seed=0, repo="/repo"):
             ok, detail = False, f"{type(e).__name__}: {e}"
         t.case("ddl:" + sql, ("ddl", sql), ok, function="fakesnow.cursor.FakeSnowflakeCursor._execute", case={"sql": sql}, expected=want, actual=detail)
     conn.close()
-    return t.result(bound=f"DML sequences of length <= {maxlen} over {len(OPS)} statements; {len(DDL)} DDL/status statements")
+    # with nop_regexes configured, DML whose text merely *contains* a pattern (in a literal, a column or a table name) is still executed
+    fs3 = new_instance(repo, nop_regexes=[r"call\s", r"^alter session", "audit"])
+    c3 = fs3.connect("db1", "s1")
+    k = c3.cursor()
+    k.execute("create or replace table notes (id int, audit_note varchar)")
+    for sql, want_status, want_rows in [
+        ("insert into notes values (1, 'please call me')", [(1,)], [(1, "please call me")]),
+        ("insert into notes (id, audit_note) values (2, 'x')", [(1,)], [(1, "please call me"), (2, "x")]),
+        ("update notes set audit_note = 'call  back' where id = 2", [(1, 0)], [(1, "please call me"), (2, "call  back")]),
+        ("delete from notes where audit_note like '%call me%'", [(1,)], [(2, "call  back")]),
+    ]:
+        try:
+            k.execute(sql)
+            got_status, rc = k.fetchall(), k.rowcount
+            k.execute("select id, audit_note from notes order by id")
+            got_rows = k.fetchall()
+            ok, detail = (got_status == want_status and rc == 1 and got_rows == want_rows), f"status {got_status} rowcount {rc} table {got_rows}"
+        except Exception as e:  # noqa: BLE001
+            ok, detail = False, f"{type(e).__name__}: {e}"
+        t.case("nop-inside:" + sql, ("nop-inside", sql), ok, function="fakesnow.cursor.FakeSnowflakeCursor.execute", case={"sql": sql, "nop_regexes": ["call\\s", "^alter session", "audit"]},
+               expected=f"status {want_status} table {want_rows}", actual=detail)
+    c3.close()
+    return t.result(bound=f"DML sequences of length <= {maxlen} over {len(OPS)} statements; {len(DDL)} DDL/status statements; 4 DML statements containing a configured no-op pattern")
 
 
 def replay(case, repo):
